@@ -52,9 +52,9 @@ SortBy(s, key) ==
   IN [r \in DOMAIN s |-> s[CHOOSE i \in DOMAIN s : rank(i) = r]]
 NameKey(s) == [i \in DOMAIN s |-> s[i].name]
 ModKey(s)  == [i \in DOMAIN s |-> s[i].name * 10 + s[i].type]      \* (name, type) lexicographic; type < 10
-RECURSIVE AscFrom(_, _, _)
-AscFrom(S, i, hi) == IF i > hi THEN <<>> ELSE (IF i \in S THEN <<i>> ELSE <<>>) \o AscFrom(S, i + 1, hi)
-Asc(S)  == AscFrom(S, 0, 120)            \* ascending sequence of a set of names (all names < 120)
+RECURSIVE Asc(_)
+Asc(S) == IF S = {} THEN <<>>                  \* ascending sequence of a finite set of names
+          ELSE LET m == CHOOSE x \in S : \A y \in S : x <= y IN <<m>> \o Asc(S \ {m})
 Desc(S) == Rev(Asc(S))
 
 EmptyWS    == [ch |-> <<>>, obs |-> <<>>, meas |-> <<>>, ver |-> 0]
